@@ -426,7 +426,11 @@ func (d *decider) decide(cr caseRec, raw json.RawMessage, rs [4]*core.CaseResult
 			v := o.AllocViol[0]
 			c.Count("allocator_frees_while_defining_instance_open", int64(len(o.AllocViol)))
 			c.Count("divergences", 1)
-			c.Violate("allocator:memory-freed-while-defining-instance-live:"+v.How, fmt.Sprintf("run %s: %s", mode, v.Detail),
+			sigp := "allocator:memory-freed-while-defining-instance-live:"
+			if v.Kind != "defining-instance-live" {
+				sigp = "allocator:memory-freed-on-owner-close-while-imported-by-live-instance:"
+			}
+			c.Violate(sigp+v.How, fmt.Sprintf("run %s: %s", mode, v.Detail),
 				map[string]any{"case": raw, "run": mode, "env": runModes[mi].env, "violations": o.AllocViol, "history": histLines(h, v.Step)})
 			crashed = true // decided: do not also compare this run
 			continue
